@@ -299,6 +299,9 @@ func cmdCheck(args []string) {
 	exitCode := 0
 	replayRoot := filepath.Join(verifRoot, "replays", *prop)
 	os.RemoveAll(replayRoot)
+	steerBuilds := map[bool]*nativeBuild{}
+	steerFailed := false
+	steeredConfirmed := 0
 	for _, sig := range sigs {
 		vs := bySig[sig]
 		confirmed := false
@@ -320,6 +323,28 @@ func cmdCheck(args []string) {
 				break
 			}
 			res := b.run(v.Replay, dir)
+			if !res.confirms(sig) && len(v.Replay.Sync) > 0 && !steerFailed {
+				// schedule-dependent: impose the recorded schedule of acquire operations in the steered build
+				isRace := v.Prop == "RACE"
+				sb := steerBuilds[isRace]
+				if sb == nil {
+					var err error
+					if sb, err = buildNativeSteered(isRace); err != nil {
+						steerFailed = true
+						fmt.Fprintf(os.Stderr, "[%s] steered replay build failed (falling back to gates and stress): %v\n", *prop, err)
+					} else {
+						steerBuilds[isRace] = sb
+					}
+				}
+				if sb != nil {
+					if r2 := sb.run(v.Replay, dir); r2.confirms(sig) {
+						res = r2
+						steeredConfirmed++
+					} else {
+						res.Output += "\n---- steered replay ----\n" + r2.Output
+					}
+				}
+			}
 			os.WriteFile(filepath.Join(dir, "native_output.txt"), []byte(res.Output), 0o644)
 			os.WriteFile(filepath.Join(dir, "README.txt"), []byte(fmt.Sprintf("counterexample for %s\nsignature: %s\nharness: %s\nre-run: cd /verif && ./check --replay %s\n", *prop, sig, v.Harness, dir)), 0o644)
 			if res.confirms(sig) {
